@@ -66,8 +66,9 @@ inline const std::vector<std::string> &default_values()
 }
 inline const std::vector<std::string> &default_rules()
 {
-	static const std::vector<std::string> r = {"", "{\"equals\":\"a\"}", "{\"startsWith\":\"a\"}", "{\"contains\":\"/\"}", "{\"endsWith\":\"b\"}", "{\"equalsNot\":\"a\"}",
-	                                           "{\"startsWith\":\"A\",\"caseInsensitive\":true}", "{\"containsAllOf\":[\"a\",\"b\"]}", "{\"startsWith\":\"xyz\",\"endsWith\":\"1\"}", "{\"contains\":\"zz\"}"};
+	static const std::vector<std::string> r = {"", "{\"equals\":\"a\"}", "{\"startsWith\":\"a\"}", "{\"contains\":\"/\"}", "{\"startsWith\":\"a\",\"endsWith\":\"b\"}", "{\"equalsNot\":\"a\"}",
+	                                           "{\"startsWith\":\"A\",\"caseInsensitive\":true}", "{\"containsAllOf\":[\"a\",\"b\"]}", "{\"endsWith\":\"1\",\"startsWith\":\"xyz\"}", "{\"contains\":\"zz\"}"};
+	// (rules 4 and 8 hold two matchers each, in both orders: some pool path is accepted by the first and rejected by the last, and vice versa)
 	return r;
 }
 struct TimeoutSpec { const char *json; }; // "" = absent
@@ -1313,6 +1314,7 @@ public:
 			if (mergeable(sc.ops[next_op])) {
 				uint64_t h = (uint64_t)sc.batching * 0x9E3779B97F4A7C15ull + next_op * 0xD6E8FEB86659FD93ull; h ^= h >> 31; h *= 0xBF58476D1CE4E5B9ull; h ^= h >> 29;
 				size_t want = 1 + (size_t)(h % 3);
+				if (sc.batching >= 5) want = 16; // a long pipelined burst
 				std::set<int> used; int last = live_conn(sc.ops[next_op].conn); used.insert(last);
 				while (j < sc.ops.size() && j - next_op < want && mergeable(sc.ops[j]) && !sc.ops[j].join) {
 					int ci = live_conn(sc.ops[j].conn);
